@@ -101,11 +101,19 @@ func directivesSeq2(s string) iter.Seq2[string, string] {
 			if len(key) == 0 {
 				continue
 			}
+			// Directive names are case-insensitive (RFC 9111 §5.2).
+			key = strings.ToLower(key)
 			if !yield(key, value) {
 				return
 			}
 		}
 	}
+}
+
+// cacheControlValue returns the Cache-Control field value of header; several
+// field lines form one list (RFC 9110 §5.3).
+func cacheControlValue(header http.Header) string {
+	return strings.Join(header.Values("Cache-Control"), ", ")
 }
 
 // parseDirectives parses a string of cache directives and returns a map
@@ -135,7 +143,7 @@ func getDurationDirective(d map[string]string, token string) (dur time.Duration,
 type CCRequestDirectives map[string]string
 
 func ParseCCRequestDirectives(header http.Header) CCRequestDirectives {
-	value := header.Get("Cache-Control")
+	value := cacheControlValue(header)
 	if value == "" {
 		return nil
 	}
@@ -194,7 +202,7 @@ func (d CCRequestDirectives) StaleIfError() (dur time.Duration, valid bool) {
 type CCResponseDirectives map[string]string
 
 func ParseCCResponseDirectives(header http.Header) CCResponseDirectives {
-	value := header.Get("Cache-Control")
+	value := cacheControlValue(header)
 	if value == "" {
 		return nil
 	}
